@@ -121,9 +121,20 @@ def replay_and_validate(ctx, exe, batches, tracespec, env_flags, label="b", jobs
         for k, v in r["stats"].items():
             if isinstance(v, int):
                 ctx.stats[k] = ctx.stats.get(k, 0) + v
+        cases = None
         for d in r["bad"]:
             d["batch"] = r["i"]
             d["script"] = r["script"]
+            if cases is None:       # execution number -> case label (a "note" with a "case" field right after the reset)
+                cases, ex = {}, 0
+                for line in open(r["script"]):
+                    c = json.loads(line)
+                    if c.get("op") == "reset":
+                        ex += 1
+                    elif c.get("op") == "note" and "case" in c:
+                        cases[ex] = c["case"]
+            if d.get("exec") in cases:
+                d.setdefault("info", {})["case"] = cases[d["exec"]]
             ctx.devs.append(d)
     return results
 
